@@ -328,6 +328,11 @@ def length(a):
         if (lo == NONE or _nonneg_const(lo)) and (hi == NONE or _neg_const(hi)):
             n = length(a[1])
             return lin(0, [(n, 1), (lo if lo != NONE else ('const', 0), -1), (hi if hi != NONE else ('const', 0), 1)])
+        if (lo == NONE or _nonneg_const(lo)) and hi[0] != 'const':
+            # X[lo:H] with H known to be within the array (len(X) - H is a non-negative constant): H - lo elements
+            d = lin(0, [(length(a[1]), 1), (hi, -1)])
+            if isnum(d) and d[1] >= 0:
+                return lin(0, [(hi, 1), (lo if lo != NONE else ('const', 0), -1)])
     if tag == 'idx' and is_intarr(a[2]) if len(a) > 2 else False:
         return length(a[2])
     return ('len', a)
